@@ -2,6 +2,7 @@ import Deb822Verif.Driver.Proto
 import Deb822Verif.Model.DebParse
 import Deb822Verif.Model.DebAccess
 import Deb822Verif.Model.DebLossy
+import Deb822Verif.Model.DebEdit
 import Deb822Verif.Spec.DocGrammar
 import Deb822Verif.Spec.DocSDec
 namespace Deb822Verif.Driver.Deb
@@ -155,8 +156,61 @@ def lossyHist (p : Lossy.Para) : List String → Option (List String)
     let rest ← lossyHist p' ops
     pure (s!"{out}={encItems p'}/{p'.length}" :: rest)
 
+/-! edit histories on a lossless document (C04/C05) -/
+
+def startDoc (f : String) : Option Doc :=
+  match f.splitOn "." with
+  | ["t", t] => do
+    let s ← decStr t
+    let kids := (parse s).tree.children
+    pure { kids := kids, handles := (paraPositions kids).map some }
+  | ["d", d] => do
+    let d ← decDoc (d.replace "=" ":")
+    let kids := docOfParas (d.map paraOfPairs)
+    pure { kids := kids, handles := (paraPositions kids).map some }
+  | _ => none
+
+def histStep (d : Doc) (op : String) : Option (Doc × String) :=
+  match op.splitOn "." with
+  | ["set", h, k, v] => do
+    let h ← h.toNat?; let k ← decStr k; let v ← decStr v
+    pure (d.onPara h (fun cs => paraSet cs k v), "-")
+  | ["ins", h, k, v] => do
+    let h ← h.toNat?; let k ← decStr k; let v ← decStr v
+    pure (d.onPara h (fun cs => paraInsert cs k v), "-")
+  | ["rm", h, k] => do
+    let h ← h.toNat?; let k ← decStr k
+    pure (d.onPara h (fun cs => paraRemove cs k), "-")
+  | ["ren", h, k, k2] => do
+    let h ← h.toNat?; let k ← decStr k; let k2 ← decStr k2
+    let found := match d.para h with
+      | some (Node.node _ cs) => (paraRename cs k k2).2
+      | _ => false
+    pure (d.onPara h (fun cs => (paraRename cs k k2).1), encBool found)
+  | ["addp"] => some (addParagraph d, "-")
+  | ["insp", i] => do let i ← i.toNat?; pure (insertParagraph d i, "-")
+  | ["rmp", i] => do let i ← i.toNat?; pure (removeParagraph d i, "-")
+  | _ => none
+
+def showHandles (d : Doc) : String :=
+  ";".intercalate ((List.range d.handles.length).map fun h =>
+    match d.para h with
+    | some p => encItems (items p)
+    | none => "~")
+
+def histRun (d : Doc) : List String → Option (List String × Doc)
+  | [] => some ([], d)
+  | op :: ops => do
+    let (d', ret) ← histStep d op
+    let (rest, dEnd) ← histRun d' ops
+    pure (s!"{ret}={encStr d'.root.text}|{showHandles d'}" :: rest, dEnd)
+
 def handle (op : String) (args : List String) : Option String :=
   match op, args with
+  | "deb.hist", [start, ops] => do
+    let d ← startDoc start
+    let (outs, dEnd) ← histRun d (if ops.isEmpty then [] else ops.splitOn ",")
+    pure s!"{encStr d.root.text}|{showHandles d} {" ".intercalate outs} {dump dEnd.root}"
   | "deb.lossy", [t] => do
     let s ← decStr t
     pure (showLossy (Lossy.read s))
